@@ -183,7 +183,16 @@ def check_case(case, stats=None):
                             and s['state'] == 'ERROR' and \
                             not acts_final.get(s['id']):
                         result = None   # failed join: no action ran
-                    rt = _routes(prog, src, s['state'], result, data)
+                    try:
+                        rt = _routes(prog, src, s['state'], result, data)
+                    except G.ExprFailure:
+                        # a guard of that task fails when evaluated: the
+                        # engine fails the task and the workflow by force
+                        # (C01's clause); routing is undefined, the case is
+                        # not judged here
+                        if stats:
+                            stats.counters['skipped_failing_guard'] += 1
+                        return []
                     if jname in rt:
                         arrived_steps.append((done_at.get(s['id'], 10 ** 9),
                                               first_seen.get(s['id'], 0)))
